@@ -273,7 +273,7 @@ class Engine:
                     break
             if match is None:
                 where = f"context {cid}" if cid is not None else f"an object that is not a test context ({src!r})"
-                self.bad("announce-unexpected", f"{cmd}: unexpected ResourceEvent on {where}: types={[getattr(t, '__name__', t) for t in ev.resource_types]} "
+                self.bad("failed-call-dispatched-event" if self.last_fail else "announce-unexpected", f"{cmd}: unexpected ResourceEvent on {where}: types={[getattr(t, '__name__', t) for t in ev.resource_types]} "
                                                 f"name={ev.resource_name!r} desc={ev.resource_description!r} is_factory={ev.is_factory}; expected {self.fmt_events(expected)}")
             else:
                 exp.remove(match)
@@ -301,7 +301,9 @@ class Engine:
                 if got_tags != exp:
                     extra = {n: t for n, t in got_tags.items() if exp.get(n, "<absent>") != t}
                     missing = {n: t for n, t in exp.items() if n not in got_tags}
-                    kind = "scope-visible-set"
+                    involves_gen = any(isinstance(t, tuple) and t and t[0] == "gen" for t in list(extra.values()) + list(missing.values()))
+                    other_ctx = cmd.get("cid") != cid
+                    kind = f"visible[{cmd['op']}{',gen' if involves_gen else ''}{',other-ctx' if other_ctx else ''}]"
                     if self.last_fail:
                         kind = f"failed-call-changed-state[{'+'.join(sorted(self.last_fail))}]"
                     self.bad(kind, f"after {cmd}: context {cid} (parent {self.model.ctxs[cid].parent}) sees for {T.__name__}: {got_tags}, "
@@ -549,7 +551,10 @@ class Engine:
         expected, events, generation = self.model.lookup(cid, t, name, optional, sync_api)
         self.inc("lookups")
         self.inc(f"lookup_via_{api}")
-        if self.check_outcome("lookup", expected, observed, cmd) and expected[0] == "ok":
+        what = "lookup[factory]" if generation is not None else "lookup"
+        if expected[0] == "exc":
+            self.last_fail = expected[1]
+        if self.check_outcome(what, expected, observed, cmd) and expected[0] == "ok":
             tag, obj = expected[1], observed[1]
             if tag is None:
                 if obj is not None:
@@ -600,7 +605,7 @@ class Engine:
             clock[0] += 1
             start = clock[0]
             try:
-                r = ("ok", await ctx.get_resource(T, name))
+                r = ("ok", await ctx.get_resource(POOL[cmd["types"][i]] if "types" in cmd else T, name))
             except Exception as e:
                 r = ("exc", e)
             clock[0] += 1
@@ -743,7 +748,10 @@ class Engine:
                 return None
             t, nm = rng.choice(fk)
             f = mc.factories[(t, nm)]
-            return {"op": "race", "cid": cid, "type": t, "name": nm, "pre": [rng.randint(0, 3) for _ in range(rng.randint(2, 5))],
+            pre = [rng.randint(0, 3) for _ in range(rng.randint(2, 5))]
+            free = [tt for tt in f.types if (tt, nm) not in mc.resources]
+            return {"op": "race", "cid": cid, "type": t, "name": nm, "pre": pre,
+                    "types": [t] + [rng.choice(free) for _ in pre[1:]],
                     "yields": rng.randint(0, 3), "factory_async": f.is_async}
         return {"op": "lookup", "cid": cid, "api": rng.choices(p["apis"], p.get("api_weights"))[0], "type": t, "name": nm,
                 "optional": rng.random() < 0.4, "yields": rng.randint(0, 2)}
